@@ -72,6 +72,9 @@ pub fn take() -> Vec<String> {
 struct Gates {
     closed: HashMap<String, bool>,
     parked: HashMap<String, u64>,
+    /// bumped by `step`: lets exactly the currently parked threads through a
+    /// gate that stays closed for later arrivals
+    generation: HashMap<String, u64>,
 }
 
 fn gates() -> &'static (Mutex<Gates>, Condvar) {
@@ -89,6 +92,14 @@ pub fn gate(name: &str) {
 pub fn release(name: &str) {
     let (m, cv) = gates();
     m.lock().unwrap().closed.remove(name);
+    cv.notify_all();
+}
+
+/// Let the threads currently parked at `name` proceed while the gate stays
+/// closed, so the next arrival parks again (single-stepping a loop).
+pub fn step(name: &str) {
+    let (m, cv) = gates();
+    *m.lock().unwrap().generation.entry(name.to_string()).or_insert(0) += 1;
     cv.notify_all();
 }
 
@@ -126,8 +137,11 @@ pub fn probe(name: &str) {
         return;
     }
     *g.parked.entry(name.to_string()).or_insert(0) += 1;
+    let my_gen = g.generation.get(name).copied().unwrap_or(0);
     cv.notify_all();
-    while g.closed.get(name).copied().unwrap_or(false) {
+    while g.closed.get(name).copied().unwrap_or(false)
+        && g.generation.get(name).copied().unwrap_or(0) == my_gen
+    {
         g = cv.wait(g).unwrap();
     }
     if let Some(c) = g.parked.get_mut(name) {
@@ -142,6 +156,7 @@ pub async fn probe_async(name: &str) {
     if !is_enabled() {
         return;
     }
+    let my_gen;
     {
         let (m, cv) = gates();
         let mut g = m.lock().unwrap();
@@ -149,13 +164,16 @@ pub async fn probe_async(name: &str) {
             return;
         }
         *g.parked.entry(name.to_string()).or_insert(0) += 1;
+        my_gen = g.generation.get(name).copied().unwrap_or(0);
         cv.notify_all();
     }
     loop {
         tokio::time::sleep(Duration::from_millis(1)).await;
         let (m, cv) = gates();
         let mut g = m.lock().unwrap();
-        if !g.closed.get(name).copied().unwrap_or(false) {
+        if !g.closed.get(name).copied().unwrap_or(false)
+            || g.generation.get(name).copied().unwrap_or(0) != my_gen
+        {
             if let Some(c) = g.parked.get_mut(name) {
                 *c -= 1;
             }
